@@ -53,7 +53,11 @@ def text_equiv(al, elt_name, s, r):
         return True
     lid = al.lang_id
     if lid in SYNCML:
-        if s.lower() in ("application/vnd.syncml-devinf+xml", "application/vnd.syncml.dmtnds+xml") and r.lower() == s.lower():
+        if elt_name == "Type" and s.lower() in ("application/vnd.syncml-devinf+xml", "application/vnd.syncml.dmtnds+xml") and r == s.lower():
+            return True            # rewritten to +wbxml and back: compared without case (strcasecmp), comes back in lower case
+        if elt_name == "Type" and s.lower() == "application/vnd.syncml-devinf+wbxml" and r == "application/vnd.syncml-devinf+xml":
+            return True            # an XML source that names the WBXML representation: the XML generator names the XML one
+        if elt_name == "Type" and lid != 2201 and s.lower() == "application/vnd.syncml.dmtnds+xml" and r == s:
             return True
         if s.replace("\r\n", "\n").strip(WS) == r.replace("\r\n", "\n").strip(WS) and elt_name == "Data":
             return True
@@ -106,6 +110,14 @@ def compare(al, src, res, keep, path="/"):
             elif not attr_equiv(al, sn, sv, rv):
                 d.append("%s/@%s: %r came back as %r" % (here, sn, sv[:60], rv[:60]))
     sk, rk = src["kids"], res["kids"]
+    if src["name"] in al.binary and any(isinstance(k, dict) for k in sk):
+        # binary-flagged element: the front end collects all character data, decodes it once and appends it after the
+        # child elements (see c06_oracle.compare)
+        # (the name may also belong to a non-binary namesake on another page: only when the result has that shape)
+        txt = "".join(k[1] for k in sk if not isinstance(k, dict))
+        alt = [k for k in sk if isinstance(k, dict)] + ([("text", txt)] if txt.strip(WS) else [])
+        if [isinstance(k, dict) for k in alt] == [isinstance(k, dict) for k in _drop(rk)] != [isinstance(k, dict) for k in _drop(sk)]:
+            sk = alt
     if (al.lang_id in SYNCML and src["name"] == "Data") or not keep:
         # trimming is applied again to every merged text run on the way back (a CDATA section kept verbatim on the way
         # in is ordinary text on the way out): without keep-ws runs are compared trimmed, blank runs dropped
@@ -122,6 +134,10 @@ def compare(al, src, res, keep, path="/"):
         elif not text_equiv(al, src["name"], a[1], b[1]):
             d.append("%s: text %r came back as %r" % (here, a[1][:70], b[1][:70]))
     return d
+
+
+def _drop(ks):
+    return [k for k in ks if isinstance(k, dict) or k[1].strip(WS)]
 
 
 def _shape(ks):
